@@ -40,6 +40,27 @@ def gen(seed):
         queries.append((5, top + 1, inverted))
         queries.append((1005, top + 1, sorted(top - p for p in inverted)))
         pairs.append((5, 1005, len(inverted)))
+    if rnd.random() < 0.7:
+        # cross-strand decoy: a noisy query whose true hit (a short run of its labels) lies on one strand with a weak coarse seed, while the
+        # other strand offers a strong coarse seed that yields no label pair (every label 0 / +1 / -1 lattice steps off, maxPairDistance 600).
+        # The query's mirror image swaps the roles of the two strands: any rule that treats the strands differently shows in one of the two.
+        rid, length, pos = refs[0]
+        steps = [0]
+        for _ in range(rnd.randint(15, 19)):
+            steps.append(steps[-1] + rnd.choice((7, 9, 11, 13, 17, 18, 20, 21, 22, 23, 26, 28, 29, 30, 32, 33, 37)))
+        top = steps[-1]
+        mir = [top - x for x in reversed(steps)]
+        a = rnd.randint(3, len(steps) - 9)
+        base = pos[-1] // STEP + rnd.randint(40, 80)
+        regionA = [base + x for x in mir[a:a + 6]]                                        # true hit, '-' strand
+        baseB = regionA[-1] + rnd.randint(60, 120)
+        regionB = [baseB + x + (0, 1, -1)[i % 3] for i, x in enumerate(steps)]              # decoy, '+' strand
+        newpos = sorted(set(pos) | {x * STEP for x in regionA} | {x * STEP for x in regionB})
+        refs[0] = (rid, newpos[-1] + STEP * 3, newpos)
+        lab = [x * STEP for x in steps]
+        queries.append((7, lab[-1] + 1, lab))
+        queries.append((1007, lab[-1] + 1, sorted(lab[-1] - p for p in lab)))
+        pairs.append((7, 1007, len(lab)))
     for qi in range(6):
         rid = rnd.randrange(len(refs))
         rp = refs[rid][2]
@@ -213,7 +234,7 @@ def bounded_program(repo, tier, seed):
             key = f"{RUN}::monitor::C11::{clause}"
             viol.setdefault(key, dict(key=key, blame=RUN, input=dict(seed=case[0]), observed=detail, required='C11 statement'))
     return result(tot, tot, "1-2 references of 50-110 labels on a 1400-bp lattice (a multiple of both correlation resolutions), 6 queries per set (exact, noisy with "
-                            "missing/extra lattice labels, indel of 2-14 lattice steps), each run together with its mirror image, maxPairDistance 600 (below half the "
+                            "missing/extra lattice labels, indel of 2-14 lattice steps; in 70% of the sets a cross-strand decoy: true hit with a weak seed on one strand, a strong pair-less seed on the other), each run together with its mirror image, maxPairDistance 600 (below half the "
                             "step: no equidistant ties), coordinates inside a molecule distinct; 'separate' mode, first-pass file; every pair (query, mirror) is a case",
                   [dict(seed=cases[0][0])], list(viol.values())[:5], exhaustive=False, bounds=f"{n} sets x 6 query/mirror pairs")
 
